@@ -2,7 +2,7 @@
    combinations model and the independent-set model; truth-table / product
    decisions evaluated on the energies the implementation reported. *)
 From Coq Require Import List ZArith QArith Qcanon Bool Arith.
-From Dimod Require Import Base.Util Model.Poly Model.Comb Gen.Gen_Gates Model.Gates Model.Knap Model.MultCircuit Model.Qap Model.Magic.
+From Dimod Require Import Base.Util Model.Poly Model.Comb Gen.Gen_Gates Model.Gates Model.Knap Model.MultCircuit Model.Qap Model.Magic Model.Sat.
 Import ListNotations.
 Open Scope Qc_scope.
 
@@ -40,7 +40,9 @@ Inductive case :=
 | CQap (n : nat) (F D : matrix) (obj : obs) (cons : list (obs * sense * Qc))
        (rows : list (list bool * bool * Qc))
 (* magic_square(n, power): reported constraints; integer assignments (cells row by row, then "sum") with check_feasible *)
-| CMagic (n power : nat) (cons : list (obs * sense * Qc)) (rows : list (list Z * bool)).
+| CMagic (n power : nat) (cons : list (obs * sense * Qc)) (rows : list (list Z * bool))
+(* random_kmcsat / nae3sat / 2in4sat: the clauses drawn (replayed from the seed), the BQM, energies of all spin assignments *)
+| CSat (k : nat) (planted : bool) (n : nat) (clauses : list clause) (bqm : obs) (rows : list (list bool * Qc)).
 
 Definition bits_eqb := list_eqb Bool.eqb.
 Definition rows_complete (n : nat) (rows : list (list bool * Qc)) : bool :=
@@ -133,4 +135,12 @@ Definition check (c : case) : bool :=
   | CMagic n power cs rows =>
       forallb2 (qcon_matches (n * n + 1)) (magic_constraints n power) cs
       && forallb (fun r => Bool.eqb (snd r) (magic_feasibleb n power (zsample (fst r)))) rows
+  | CSat k planted n clauses bqm rows =>
+      forallb (clause_ok k planted) clauses
+      && poly_coeff_eqb n (sat_poly clauses) (obs_poly bqm)
+      && rows_complete n rows
+      && forallb (fun r => Qc_eqb (snd r) (z2q (sat_energy clauses (spin_of (fst r))))) rows
+      (* a planted instance has the all +1 assignment among its ground states *)
+      && (negb planted ||
+          let e1 := lookup_row rows (repeat true n) in forallb (fun r => qle e1 (snd r)) rows)
   end.
